@@ -211,7 +211,7 @@ def run(ctx, n_files=None):
     for fno in range(n_files or ctx.scale(20, 200)):
         gen = irgen.Gen(gtirb, rng, rng.choice([0.3, 0.6]))
         ir0 = gen.build()
-        msg = ms.parse_file(gtirb, ms.save(ir0))
+        msg = ms.canonical_order(ms.parse_file(gtirb, ms.save(ir0)))
         cases = [("unmodified", "none", msg)]
         for what, fclass, m2 in fs.structural_faults(gtirb, msg, rng, True):
             if fclass in ("bad-reference", "duplicate-uuid"):
